@@ -145,7 +145,7 @@ package v2
 // allocated after this alert was routed, so it shares no backing array with the list of an alert reported earlier
 // (the API model keeps pointers into it).
 //@ func (*API).getAlertsHandler
-//@   props C13
+//@   props C13 C07
 //@   abstract
 //@   nosafe
 //@   assumes api != nil && api.route != nil
@@ -270,7 +270,7 @@ package v2
 // each built from that alert with the receivers routing gave it and the group's muting intervals exactly as the
 // group marker reported them; nothing the handler was handed (the marker's list included) is written to.
 //@ func (*API).getAlertGroupsHandler
-//@   props C06 C15
+//@   props C06 C15 C03 C02 C13
 //@   nosafe
 //@   requires api != nil
 //@   at call dynamic:field:alertGroups assert [groups-of-the-dispatcher-through-both-filters] arg2 == ret("API).alertFilter")
